@@ -330,7 +330,8 @@ CLAIMS: dict[str, tuple[str, str, str, str]] = {
         "through every rule and engine function, DInv / keepsI_*), processDelims keeps markers, and strikethrough's post-processing is then the identity. "
         "any_two_configurations (Props/C10j.lean): any two configurations of the ten switchable inline rules (emphasis included) give identical token streams on "
         "every source holding no trigger of a rule enabled in exactly one of them — the conservative-extension clause for the whole inline sub-parser; "
-        "full_conservative (Props/C10k.lean) lifts it to MarkdownIt.parse on the modelled sub-language: same whole-parse result whenever no inline token's content holds such a trigger. "
+        "full_meta (Props/C10l.lean): store_labels only adds label metadata — at every depth a link_open / image token carries no metadata with the option off and at most one "
+        "`label` entry (non-empty label) with it on. full_conservative (Props/C10k.lean) lifts the conservative-extension clause to MarkdownIt.parse on the modelled sub-language: same whole-parse result whenever no inline token's content holds such a trigger. "
         "MISSING: provenance for the remaining rules (table, reference; linkify) and the "
         "conservative-extension clause for the block rules (table: not modelled) is decided by the oracle (token kinds under random rule subsets; "
         "table/strikethrough on vs off on trigger-free inputs; definition options erase to the plain parse, env and HTML equal; "
